@@ -438,6 +438,13 @@ impl Gen {
                 } else if huge {
                     op.r = Refuse::All;
                 }
+                if self.family == Family::Table && self.huge_reserve && rng.below(8) == 0 {
+                    // a fresh table of a giant element type (c = 9): a = amount, b = which type
+                    op.c = 9;
+                    op.a = rng.below(64) as i64;
+                    op.b = rng.below(6) as i64;
+                    op.r = Refuse::All;
+                }
                 op
             }
             Kd::Extend | Kd::ExtendRef | Kd::FromIter => {
@@ -502,7 +509,13 @@ impl Gen {
                 let n = rng.below(5);
                 let mut v: Vec<i64> = (0..n).map(|_| self.key(rng, sv, 70) as i64).collect();
                 if n >= 2 && rng.below(4) == 0 {
-                    v[1] = v[0];
+                    // a repeated key at any two positions (also behind an absent key)
+                    let j = 1 + rng.below(n - 1) as usize;
+                    let i = rng.below(j as u64) as usize;
+                    v[j] = v[i];
+                    if i > 0 && rng.below(2) == 0 {
+                        v[0] = self.universe as i64 + 7;
+                    }
                 }
                 Op::new(kind).s(s).b(val).c(rng.below(4) as i64).v(v)
             }
